@@ -80,7 +80,7 @@ if SCRATCH:
 else:
     st = sh('git -C /repo status --porcelain')
     assert not st.stdout.strip(), '/repo is not clean'
-    ra = sh(f'git -C /repo apply -3 --whitespace=nowarn {patch}')
+    ra = sh(f'git -C /repo apply --whitespace=nowarn {patch}')
 try:
     if ra is not None and ra.returncode == 0:
         ev = tempfile.mkdtemp(prefix='ev_', dir='/tmp')
